@@ -7,6 +7,7 @@ use crate::cmd::ast::Cmd;
 use crate::cmd::driver::{effects_equal, log_multiset_equal, run_scenario_on, Checks};
 use crate::cmd::gen::{gen_script, Action, GenCfg, ProgGen, Scenario, ScriptCfg};
 use crate::cmd::hosts::HostSel;
+use crate::cmd::model::RootId;
 use crate::cmd::ops::{Event, IDENTITY};
 use crate::cmd::shrink::shrink_scenario;
 use crate::rng::{mix, Rng};
@@ -131,6 +132,78 @@ pub struct CmdScn {
     pub law: Option<Law>,
     /// real-vs-real: the same script under other hosts must observe the same
     pub diff_hosts: Vec<HostSel>,
+    /// fault enumeration: every single cancellation placement of the base script is executed
+    #[serde(default)]
+    pub enumerate: bool,
+    /// ... or only this one (set by the minimiser)
+    #[serde(default)]
+    pub placement: Option<Placement>,
+}
+
+#[derive(Clone, Debug, PartialEq, Eq, Serialize, Deserialize)]
+pub enum Cancel {
+    Abort(u32),
+    Drop(u32, u64),
+    DropRoot(RootId),
+    DropAll,
+}
+
+#[derive(Clone, Debug, PartialEq, Eq, Serialize, Deserialize)]
+pub struct Placement {
+    /// inserted as an extra step before step `at` of the base script
+    pub at: usize,
+    pub what: Vec<Cancel>,
+}
+
+fn with_placement(base: &Scenario, p: &Placement) -> Scenario {
+    let mut s = base.clone();
+    let acts: Vec<Action> = p
+        .what
+        .iter()
+        .map(|c| match c {
+            Cancel::Abort(h) => Action::Event(Event::Abort(*h)),
+            Cancel::Drop(site, arg) => Action::Drop { site: *site, arg: *arg },
+            Cancel::DropRoot(r) => Action::DropRoot(r.clone()),
+            Cancel::DropAll => Action::DropAll,
+        })
+        .collect();
+    let at = p.at.min(s.steps.len());
+    // one cancellation per settle, so that no tie with other actions arises
+    for (k, a) in acts.into_iter().enumerate() {
+        s.steps.insert(at + k, vec![a]);
+    }
+    s.adaptive_drain = true;
+    s
+}
+
+fn placements(base: &Scenario, bounds: &[crate::cmd::driver::Boundary], direct: bool, bridge: bool) -> Vec<Placement> {
+    let mut out = vec![];
+    for (i, b) in bounds.iter().enumerate().take(base.steps.len() + 1) {
+        for h in &b.handles {
+            out.push(Placement { at: i, what: vec![Cancel::Abort(*h)] });
+            // repeated abort
+            if i % 3 == 0 {
+                out.push(Placement { at: i, what: vec![Cancel::Abort(*h), Cancel::Abort(*h)] });
+            }
+        }
+        if !bridge {
+            for k in &b.droppable {
+                out.push(Placement { at: i, what: vec![Cancel::Drop(k.0, k.1)] });
+            }
+            if let (Some(h), Some(k)) = (b.handles.first(), b.droppable.last()) {
+                out.push(Placement { at: i, what: vec![Cancel::Abort(*h), Cancel::Drop(k.0, k.1)] });
+            }
+        }
+        if direct {
+            for r in &b.roots {
+                out.push(Placement { at: i, what: vec![Cancel::DropRoot(r.clone())] });
+            }
+        }
+        if !bridge && i % 4 == 1 && !b.droppable.is_empty() {
+            out.push(Placement { at: i, what: vec![Cancel::DropAll] });
+        }
+    }
+    out
 }
 
 pub struct CmdCheck {
@@ -144,6 +217,7 @@ pub struct CmdCheck {
     pub occupancy: bool,
     pub done: bool,
     pub buggify: bool,
+    pub enumerate: bool,
     pub runs_quick: u64,
     pub runs_thorough: u64,
     pub tweak: fn(&mut GenCfg, &mut ScriptCfg, &mut Rng, HostSel),
@@ -213,8 +287,14 @@ impl Check for CmdCheck {
             drop_all: crng.chance(1, 8),
             order_bias: crng.below(3) as u8,
             stream_items: crng.range(1, 6) as u32,
+            force_batch1: false,
+            bridge_dups: false,
+            abort_before_poll: self.diff_hosts.is_empty(),
         };
         (self.tweak)(&mut cfg, &mut sc, &mut crng, host);
+        if !host.supports_legacy() {
+            cfg.legacy = false;
+        }
 
         let mut xrng = rng.fork("extras");
         let law = if self.laws && xrng.chance(2, 3) {
@@ -280,9 +360,11 @@ impl Check for CmdCheck {
             }
         }
         CmdScn {
-            scn: Scenario { host, steps: so.steps, hash_seed: mix(xrng.next_u64(), 1), buggify, drain_from: so.drain_from },
+            scn: Scenario { host, steps: so.steps, hash_seed: mix(xrng.next_u64(), 1), buggify, drain_from: so.drain_from, adaptive_drain: false, defer_drops: !self.diff_hosts.is_empty(), bridge_dups: sc.bridge_dups },
             law,
             diff_hosts,
+            enumerate: self.enumerate,
+            placement: None,
         }
     }
 
@@ -296,6 +378,33 @@ impl Check for CmdCheck {
         let base = run_scenario_on(&s.scn, s.scn.host, &ck, cov)?;
         if base.info.discarded {
             return Ok(base.info);
+        }
+        if s.enumerate {
+            let all = match &s.placement {
+                Some(p) => vec![p.clone()],
+                None => placements(&s.scn, &base.boundaries, s.scn.host.is_direct(), s.scn.host.is_bridge()),
+            };
+            let mut info = base.info.clone();
+            for (n, p) in all.iter().enumerate() {
+                if n >= 400 {
+                    cov.bump("placements_capped");
+                    break;
+                }
+                cov.bump("placements_enumerated");
+                for c in &p.what {
+                    cov.bump(match c {
+                        Cancel::Abort(_) => "placement:abort_handle",
+                        Cancel::Drop(..) => "placement:drop_request",
+                        Cancel::DropRoot(_) => "placement:drop_command",
+                        Cancel::DropAll => "placement:drop_everything",
+                    });
+                }
+                let scn2 = with_placement(&s.scn, p);
+                let r = run_scenario_on(&scn2, s.scn.host, &ck, cov).map_err(|v| Violation::new(v.sig, format!("with cancellation {p:?} injected: {}", v.msg)))?;
+                info.nontrivial |= r.info.nontrivial;
+                info.shape = mix(info.shape, r.info.shape);
+            }
+            return Ok(info);
         }
         let has_abort = s.scn.steps.iter().flatten().any(|a| match a {
             Action::Event(Event::Run(c)) => c.has_races(),
@@ -343,7 +452,40 @@ impl Check for CmdCheck {
     }
 
     fn shrink(&self, s: &CmdScn) -> Vec<CmdScn> {
-        let mut out: Vec<CmdScn> = shrink_scenario(&s.scn).into_iter().map(|scn| CmdScn { scn, ..s.clone() }).collect();
+        let mut out: Vec<CmdScn> = vec![];
+        if s.enumerate && s.placement.is_none() {
+            // pin the failing placement first
+            let ck = self.checks();
+            let mut cov = Cov::default();
+            if let Ok(base) = run_scenario_on(&s.scn, s.scn.host, &ck, &mut cov) {
+                for p in placements(&s.scn, &base.boundaries, s.scn.host.is_direct(), s.scn.host.is_bridge()) {
+                    out.push(CmdScn { placement: Some(p), ..s.clone() });
+                }
+            }
+            return out;
+        }
+        if let Some(p) = &s.placement {
+            if p.what.len() > 1 {
+                for i in 0..p.what.len() {
+                    let mut w = p.what.clone();
+                    w.remove(i);
+                    out.push(CmdScn { placement: Some(Placement { at: p.at, what: w }), ..s.clone() });
+                }
+            }
+            // cut the script after the placement, then shrink the prefix
+            if p.at < s.scn.steps.len() {
+                let mut scn = s.scn.clone();
+                scn.steps.truncate(p.at);
+                scn.drain_from = scn.drain_from.min(p.at);
+                out.push(CmdScn { scn, ..s.clone() });
+            }
+            for i in 0..p.at.min(s.scn.steps.len()) {
+                let mut scn = s.scn.clone();
+                scn.steps.remove(i);
+                out.push(CmdScn { scn, placement: Some(Placement { at: p.at - 1, what: p.what.clone() }), ..s.clone() });
+            }
+        }
+        out.extend(shrink_scenario(&s.scn).into_iter().map(|scn| CmdScn { scn, ..s.clone() }));
         if s.law.is_some() {
             out.push(CmdScn { law: None, ..s.clone() });
         }
@@ -444,6 +586,7 @@ pub static C04: CmdCheck = CmdCheck {
     occupancy: false,
     done: true,
     buggify: false,
+    enumerate: false,
     runs_quick: 60_000,
     runs_thorough: 2_000_000,
     tweak: c04_tweak,
@@ -451,7 +594,264 @@ pub static C04: CmdCheck = CmdCheck {
     extra_assumptions: &["two independent oracles: (1) reference semantics per step, (2) algebraic laws compared real-vs-real under the same script"],
 };
 
+const TYPED: &[HostSel] = &[HostSel::Direct, HostSel::CoreFx, HostSel::CoreCaps];
+const CORES: &[HostSel] = &[HostSel::CoreFx, HostSel::CoreCaps];
+const ALL_HOSTS: &[HostSel] =
+    &[HostSel::Direct, HostSel::CoreFx, HostSel::CoreCaps, HostSel::BridgeBincode, HostSel::BridgeJson, HostSel::BridgeBincodeFx];
+
+fn c01_tweak(cfg: &mut GenCfg, sc: &mut ScriptCfg, rng: &mut Rng, h: HostSel) {
+    cfg.conts = rng.chance(3, 4);
+    cfg.tasks = true;
+    cfg.legacy = h.supports_legacy() && rng.chance(2, 3);
+    sc.noops = true;
+    sc.drop_all = false;
+}
+
+pub static C01: CmdCheck = CmdCheck {
+    id: "C01",
+    level: "exploration",
+    hosts: CORES,
+    diff_hosts: &[],
+    laws: false,
+    layers: false,
+    quiescence: true,
+    occupancy: false,
+    done: false,
+    buggify: false,
+    enumerate: false,
+    runs_quick: 60_000,
+    runs_thorough: 2_000_000,
+    tweak: c01_tweak,
+    rule: RULE,
+    extra_assumptions: &["per call: returned effects == reference effects (nothing missing, extra or deferred), applied events == reference, runtime queues empty (verif_stats) after every call; Noop events act as probes for deferred work"],
+};
+
+fn c02_tweak(cfg: &mut GenCfg, sc: &mut ScriptCfg, rng: &mut Rng, h: HostSel) {
+    cfg.streams = true;
+    cfg.chains = true;
+    cfg.tasks = true;
+    cfg.op_b = true;
+    cfg.legacy = h.supports_legacy() && rng.chance(1, 2);
+    sc.dups = true;
+    sc.drops = rng.chance(1, 2);
+    sc.bridge_dups = rng.chance(1, 10);
+    sc.order_bias = rng.below(3) as u8;
+    sc.drop_all = rng.chance(1, 10);
+}
+
+pub static C02: CmdCheck = CmdCheck {
+    id: "C02",
+    level: "exploration",
+    hosts: ALL_HOSTS,
+    diff_hosts: &[],
+    laws: false,
+    layers: false,
+    quiescence: false,
+    occupancy: false,
+    done: false,
+    buggify: false,
+    enumerate: false,
+    runs_quick: 60_000,
+    runs_thorough: 2_000_000,
+    tweak: c02_tweak,
+    rule: RULE,
+    extra_assumptions: &[
+        "shell-chosen response values are unique per run, so every delivered value is attributable to one request instance and one resolution",
+        "under debug assertions Core::resolve escalates a rejected resolution through debug_assert!; that panic is accepted as the rejection",
+        "unknown effect ids over the bridge are outside the property's domain; duplicates for consumed ids are injected rarely (known finding S6)",
+    ],
+};
+
+fn c03_tweak(cfg: &mut GenCfg, sc: &mut ScriptCfg, rng: &mut Rng, h: HostSel) {
+    cfg.tasks = true;
+    cfg.conts = rng.chance(3, 4);
+    cfg.maps = rng.chance(1, 2);
+    cfg.legacy = h.supports_legacy() && rng.chance(1, 2);
+    sc.noops = true;
+    sc.drop_all = false;
+}
+
+pub static C03: CmdCheck = CmdCheck {
+    id: "C03",
+    level: "exploration",
+    hosts: &[HostSel::CoreFx, HostSel::CoreCaps, HostSel::BridgeBincode, HostSel::BridgeJson],
+    diff_hosts: &[],
+    laws: false,
+    layers: false,
+    quiescence: false,
+    occupancy: false,
+    done: false,
+    buggify: false,
+    enumerate: false,
+    runs_quick: 60_000,
+    runs_thorough: 2_000_000,
+    tweak: c03_tweak,
+    rule: RULE,
+    extra_assumptions: &["single-threaded half of C03 (exactly once, per-emitter order, no re-entrancy, view reflects every applied event); the concurrent-callers half is decided by C08"],
+};
+
+fn c05_tweak(cfg: &mut GenCfg, sc: &mut ScriptCfg, rng: &mut Rng, h: HostSel) {
+    sc.force_batch1 = true;
+    sc.drop_roots = false;
+    sc.drop_all = false;
+    // bridges cannot drop requests: half of the runs are drop-free so that they take part
+    sc.drops = rng.chance(1, 2);
+    sc.dups = rng.chance(1, 3);
+    cfg.legacy = h.supports_legacy() && rng.chance(1, 2);
+}
+
+pub static C05: CmdCheck = CmdCheck {
+    id: "C05",
+    level: "exploration",
+    hosts: &[HostSel::Direct, HostSel::Direct, HostSel::CoreCaps],
+    diff_hosts: ALL_HOSTS,
+    laws: false,
+    layers: true,
+    quiescence: false,
+    occupancy: false,
+    done: false,
+    buggify: false,
+    enumerate: false,
+    runs_quick: 30_000,
+    runs_thorough: 1_000_000,
+    tweak: c05_tweak,
+    rule: RULE,
+    extra_assumptions: &[
+        "real-vs-real: the same program and script under every host that can express it (legacy programs only under hosts with the capability API, scripts with drops not under bridges) must give equal per-step effects, applied events and resolve outcomes",
+        "command-in-command hosting is exercised by wrapping the program in k semantics-preserving layers (all/and/then/map_effect/map_event/into+from), k up to 64",
+    ],
+};
+
+fn c06_tweak(cfg: &mut GenCfg, sc: &mut ScriptCfg, rng: &mut Rng, _h: HostSel) {
+    cfg.abort_cmd = true;
+    cfg.abort_task = rng.chance(1, 2);
+    cfg.legacy = false;
+    sc.max_steps = sc.max_steps.min(14);
+    sc.aborts = false;
+    sc.drops = false;
+    sc.dups = rng.chance(1, 2);
+    sc.drop_roots = false;
+    sc.drop_all = false;
+    sc.force_batch1 = true;
+}
+
+pub static C06: CmdCheck = CmdCheck {
+    id: "C06",
+    level: "fault_enumeration",
+    hosts: TYPED,
+    diff_hosts: &[],
+    laws: false,
+    layers: false,
+    quiescence: false,
+    occupancy: false,
+    done: true,
+    buggify: false,
+    enumerate: true,
+    runs_quick: 3_000,
+    runs_thorough: 100_000,
+    tweak: c06_tweak,
+    rule: "for each sampled (program, fault-free base script) EVERY single cancellation placement is executed: each step boundary x each registered abort handle (also repeated), each outstanding droppable request, each live command (direct host), plus abort+drop pairs and drop-everything; after the injected cancellation the script continues (late resolves of cancelled work included) and an adaptive drain resolves what the reference still has outstanding; evaluations counts base scenarios, placements_enumerated counts executed placements; distinct/non-trivial as for the other cmdsim checks",
+    extra_assumptions: &["oracle after the cancellation point: the reference model, in which cancelled work produces nothing, siblings are unaffected, late resolves are inert; abort of a directly held command is done at once, nested aborted work may be reaped any time until its last wait fires"],
+};
+
+fn c07_tweak(cfg: &mut GenCfg, sc: &mut ScriptCfg, rng: &mut Rng, _h: HostSel) {
+    cfg.tasks = true;
+    cfg.spawn = rng.chance(4, 5);
+    cfg.select = rng.chance(3, 5);
+    cfg.join_all = rng.chance(3, 5);
+    cfg.yields = rng.chance(3, 5);
+    cfg.legacy = false;
+    sc.drops = true;
+    sc.drop_all = false;
+}
+
+pub static C07: CmdCheck = CmdCheck {
+    id: "C07",
+    level: "exploration",
+    hosts: &[HostSel::Direct],
+    diff_hosts: &[],
+    laws: false,
+    layers: false,
+    quiescence: false,
+    occupancy: false,
+    done: true,
+    buggify: true,
+    enumerate: false,
+    runs_quick: 60_000,
+    runs_thorough: 2_000_000,
+    tweak: c07_tweak,
+    rule: RULE,
+    extra_assumptions: &[
+        "is_done is compared at every quiescent point with the reference (which discards a task exactly when it finished, was cancelled, or can never be woken again); where requests of losing select branches are still held by the shell either answer is accepted until they are resolved or dropped",
+        "spurious wake-ups of all live tasks are injected through the buggify hook in half of the race-free runs",
+    ],
+};
+
+fn c09_tweak(cfg: &mut GenCfg, sc: &mut ScriptCfg, rng: &mut Rng, _h: HostSel) {
+    sc.force_batch1 = true;
+    sc.drops = false;
+    sc.dups = false;
+    sc.drop_roots = false;
+    sc.drop_all = false;
+    sc.order_bias = rng.below(3) as u8;
+    cfg.op_b = true;
+    cfg.render = true;
+    cfg.legacy = rng.chance(1, 2);
+}
+
+pub static C09: CmdCheck = CmdCheck {
+    id: "C09",
+    level: "exploration",
+    hosts: &[HostSel::CoreCaps, HostSel::CoreCaps, HostSel::CoreFx],
+    diff_hosts: &[HostSel::BridgeBincode, HostSel::BridgeJson, HostSel::BridgeBincodeFx],
+    laws: false,
+    layers: false,
+    quiescence: false,
+    occupancy: false,
+    done: false,
+    buggify: false,
+    enumerate: false,
+    runs_quick: 40_000,
+    runs_thorough: 1_000_000,
+    tweak: c09_tweak,
+    rule: RULE,
+    extra_assumptions: &[
+        "the typed core (judged against the reference) is the twin; each bridge must give, after decoding with the harness's own decoder, the same per-step effects, applied events and resolve outcomes; ids of outstanding requests must be pairwise distinct (checked by the simulated shell on every batch)",
+        "CoreFx is compared with the bincode bridge over the same #[effect] app, CoreCaps with both bridges over the derive(Effect) app",
+    ],
+};
+
+fn c13_tweak(cfg: &mut GenCfg, sc: &mut ScriptCfg, rng: &mut Rng, h: HostSel) {
+    cfg.tokens = true;
+    cfg.max_depth = cfg.max_depth.min(3);
+    cfg.legacy = h.supports_legacy() && rng.chance(1, 3);
+    sc.max_steps = rng.range(60, 400) as u32;
+    sc.noops = false;
+    sc.drop_all = rng.chance(1, 6);
+    sc.drop_roots = rng.chance(1, 4);
+}
+
+pub static C13: CmdCheck = CmdCheck {
+    id: "C13",
+    level: "exploration",
+    hosts: &[HostSel::Direct, HostSel::CoreFx, HostSel::CoreCaps, HostSel::BridgeBincode],
+    diff_hosts: &[],
+    laws: false,
+    layers: false,
+    quiescence: false,
+    occupancy: true,
+    done: true,
+    buggify: false,
+    enumerate: false,
+    runs_quick: 20_000,
+    runs_thorough: 500_000,
+    tweak: c13_tweak,
+    rule: "long histories of many small programs started one after another (start -> resolve / drop / abort -> finish), tasks holding drop-counted tokens; occupancy (executor tasks, command tasks, registry entries by kind, live tokens) is compared with the reference's outstanding work at every quiescent point and must be zero after the drain phase and after the host is dropped; non-trivial/distinct as for the other cmdsim checks",
+    extra_assumptions: &["occupancy is read through the read-only verif accessors; registry growth is additionally bounded hook-free by the largest effect id handed out"],
+};
+
 #[allow(dead_code)]
 pub fn unused() {
     let _ = no_tweak;
+    let _ = TYPED;
 }
